@@ -31,6 +31,7 @@ class Recorder:
         self.md.decoders = [self._wrap(j, f) for j, f in enumerate(self.base)]
         self.plain = Multidecoder(list(self.base))  # unobserved twin for auxiliary scans
         self.hang_s = hang_s
+        self.deferred: list = []
 
     # -- observation --------------------------------------------------------------------------
     def _wrap(self, j: int, f: Callable):
@@ -74,7 +75,11 @@ class Recorder:
         }
 
     # -- one scan -----------------------------------------------------------------------------
-    def scan(self, data: bytes, k: int, *, lo: bool = False, subs: bool = False) -> dict:
+    def scan(self, data: bytes, k: int, *, lo: bool = False, subs: bool = False, lo_first: bool = False, defer_subs: bool = False) -> dict:
+        """lo_first: the scan with limit k-1 is made BEFORE the recorded one (state that one scan leaves behind must not show
+        in the other, whichever comes first).  defer_subs: the independent re-scans of decoded values are made later, by
+        finish_subs() (nothing a scan reports may depend on how old the process is)."""
+        lo_tree = self.plain.scan(data, k - 1) if (lo and lo_first) else None
         self.collects: list = []
         self.texts: list[bytes] = []
         self.tix: dict[bytes, int] = {}
@@ -132,13 +137,24 @@ class Recorder:
                 rec["iter"] = [-2]
             if lo:
                 rec["hasLo"] = True
-                rec["lo"] = self._walk(self.plain.scan(data, k - 1), {})[0]
-            if subs:
+                rec["lo"] = self._walk(lo_tree if lo_tree is not None else self.plain.scan(data, k - 1), {})[0]
+            if subs and defer_subs:
+                self.deferred.append((rec, objs, obs, k, set(self.kid_ids), list(self.texts), dict(self.tix)))
+            elif subs:
                 rec["subs"] = self._subs(objs, obs, k)
         rec["texts"] = [list(b) for b in self.texts]
         rec["hits"] = [hits.get(t, []) for t in range(1, len(self.texts) + 1)]
         self.last_tree = tree
         return rec
+
+    def finish_subs(self) -> None:
+        """The deferred independent re-scans (see scan(defer_subs=True)); texts met now are interned into the trace's own table."""
+        for rec, objs, obs, k, kid_ids, texts, tix in self.deferred:
+            self.kid_ids, self.texts, self.tix = kid_ids, texts, tix
+            rec["subs"] = self._subs(objs, obs, k)
+            rec["texts"] = [list(b) for b in self.texts]
+            rec["hits"] = rec["hits"] + [[] for _ in range(len(self.texts) - len(rec["hits"]))]
+        self.deferred = []
 
     def _walk(self, tree: Node, owner: dict) -> tuple[list[dict], list[Node]]:
         obs: list[dict] = []
